@@ -1,0 +1,69 @@
+//go:build verif
+
+package gem
+
+import "unsafe"
+
+// This file is only compiled with the "verif" build tag. It adds read-only
+// observers used by the external verification harness; it changes no existing
+// behaviour.
+
+// VerifPreds evaluates the break-class predicates on r and returns them as a
+// bitmask, in the order: Prepend, CR, LF, Control, Extend, RegionalIndicator,
+// SpacingMark, L, V, T, LV, LVT, ZWJ, ExtPicto.
+func VerifPreds(r rune) uint16 {
+	var m uint16
+	fs := [...]func(rune) bool{
+		isCbPrepend, isCbCR, isCbLF, isCbControl, isCbExtend,
+		isCbRegionalIndicator, isCbSpacingMark, isCbL, isCbV, isCbT,
+		isCbLV, isCbLVT, isCbZWJ, isExtPicto,
+	}
+	for i, f := range fs {
+		if f(r) {
+			m |= 1 << uint(i)
+		}
+	}
+	return m
+}
+
+// VerifCache reports the state of the String's boundary cache without
+// touching it: hasCell is false for a zero-value String (gc == nil), filled is
+// whether the cached slice is non-nil, ends is a copy of it.
+func (str String) VerifCache() (hasCell bool, filled bool, ends []int) {
+	if str.gc == nil {
+		return false, false, nil
+	}
+	if *str.gc == nil {
+		return true, false, nil
+	}
+	ends = make([]int, len(*str.gc))
+	copy(ends, *str.gc)
+	return true, true, ends
+}
+
+// VerifCellID returns the address of the String's cache cell (0 for none), so
+// that sharing of cells between values can be observed.
+func (str String) VerifCellID() uintptr {
+	return uintptr(unsafe.Pointer(str.gc))
+}
+
+// VerifRunes returns a copy of the raw rune content without initialising
+// anything.
+func (str String) VerifRunes() []rune {
+	r := make([]rune, len(str.r))
+	copy(r, str.r)
+	return r
+}
+
+// VerifFromRunes builds a String from arbitrary (also ill-formed) rune values.
+func VerifFromRunes(r []rune) String {
+	c := make([]rune, len(r))
+	copy(c, r)
+	return String{r: c, gc: new([]int)}
+}
+
+// VerifZeroFilled reports whether the package-level Zero value's cache cell
+// currently holds a non-nil slice.
+func VerifZeroFilled() bool {
+	return Zero.gc != nil && *Zero.gc != nil
+}
